@@ -19,7 +19,11 @@
 (* Deviations (sensitivity only): "ConstantNonce", "MacNotChecked",        *)
 (* "ZeroKeyAccepted", "PlaintextFallback", "ViewCachesPlaintext" (a view   *)
 (* remembers what it decrypted, by entry name only), "SparseKeyRefused"    *)
-(* (the all-zero test does not look at every byte).                        *)
+(* (the all-zero test does not look at every byte), "OptionEncryptsOnce"   *)
+(* (a WithEncryptedMeta option encrypts when it is built, so applying the  *)
+(* same option value to two tokens stores one ciphertext twice),           *)
+(* "PlaintextAliased" (GetEncryptedBytes hands out a buffer that the next  *)
+(* read reuses).                                                           *)
 (***************************************************************************)
 EXTENDS Integers, Sequences, FiniteSets, TLC, Json
 
@@ -49,14 +53,16 @@ Init == \E carrier \in Carriers, api \in {"string", "bytes"}, p \in Plaintexts, 
           /\ (t = "body" => p # "empty")
           /\ (gk2 # None2 => (t = "none" /\ ak \in Legit /\ p \in {"short", "binary"}))    \* a second read of the same view
           /\ m = [carrier |-> carrier, api |-> api, p |-> p, ak |-> ak, seal |-> seal, tamper |-> t, gk |-> gk, gk2 |-> gk2,
-                  phase |-> "add", added |-> "none", box |-> "none", box2 |-> "none", got |-> "none", got2 |-> "none", cached |-> FALSE]
+                  phase |-> "add", added |-> "none", box |-> "none", box2 |-> "none", box3 |-> "none", got |-> "none", got2 |-> "none", cached |-> FALSE]
 
 Next ==
   \/ /\ m.phase = "add"
      /\ m' = IF ~GoodKey(m.ak) THEN [m EXCEPT !.added = "refused", !.phase = "done"]
              ELSE [m EXCEPT !.added = "ok", !.phase = "transport",
                             !.box = [k |-> m.ak, n |-> 1, p |-> m.p, intact |-> TRUE],
-                            !.box2 = [k |-> m.ak, n |-> IF "ConstantNonce" \in Deviations THEN 1 ELSE 2, p |-> m.p, intact |-> TRUE]]
+                            !.box2 = [k |-> m.ak, n |-> IF "ConstantNonce" \in Deviations THEN 1 ELSE 2, p |-> m.p, intact |-> TRUE],
+                            \* the same option value applied to a second token (token carriers only)
+                            !.box3 = [k |-> m.ak, n |-> IF {"ConstantNonce", "OptionEncryptsOnce"} \cap Deviations # {} THEN 1 ELSE 3, p |-> m.p, intact |-> TRUE]]
   \/ /\ m.phase = "transport"      \* sealing and unsealing the carrying token does not touch the stored value
      /\ m' = [m EXCEPT !.phase = "tamper"]
   \/ /\ m.phase = "tamper"
@@ -79,7 +85,9 @@ Authentic   == /\ (Done /\ m.added = "ok" /\ m.gk \in Legit /\ (m.tamper # "none
 KeyRefusal  == /\ (Done /\ m.ak \notin Legit) => m.added = "refused"
                /\ (Done /\ m.added = "ok" /\ m.gk \notin Legit) => m.got = "refused"
                /\ (Done /\ m.added = "ok" /\ m.gk2 \notin Legit \cup {None2}) => m.got2 = "refused"
-Fresh       == (Done /\ m.added = "ok") => m.box.n # m.box2.n
+Fresh       == (Done /\ m.added = "ok") => (m.box.n # m.box2.n /\ (m.carrier \in {"dlg", "inv"} => m.box.n # m.box3.n))
+\* what a read returned stays what it is while other entries are read
+Stable      == (Done /\ m.got = "plaintext" /\ m.api = "bytes") => "PlaintextAliased" \notin Deviations
 
 Emit == Done => PrintT(ToJson([carrier |-> m.carrier, api |-> m.api, p |-> m.p, ak |-> m.ak, seal |-> m.seal, tamper |-> m.tamper,
                                gk |-> m.gk, gk2 |-> m.gk2, added |-> m.added, got |-> m.got, got2 |-> m.got2]))
